@@ -3,6 +3,7 @@ package main
 // Evaluation of Go expressions of the real source into SMT terms.
 
 import (
+	"hash/fnv"
 	"fmt"
 	"go/ast"
 	"go/constant"
@@ -263,6 +264,9 @@ func (u *Unit) typeInv(v Val) string {
 		var cs []string
 		for i := 0; i < t.NumFields(); i++ {
 			f := t.Field(i)
+			if f.Name() == "_" {
+				continue
+			}
 			fv := Val{T: app(fieldSel(v.So, f.Name()), v.T), Ty: f.Type(), So: u.sortOf(f.Type())}
 			cs = append(cs, u.typeInv(fv))
 		}
@@ -673,8 +677,20 @@ func (u *Unit) addressOf(st *State, x *ast.UnaryExpr) Val {
 	if sel, ok := inner.(*ast.SelectorExpr); ok {
 		// &x.f : an opaque pointer. Writes through it are only modelled by heap havoc of
 		// contract-less callees; listed as an abstraction.
-		u.eval(st, sel.X)
+		base := u.eval(st, sel.X)
 		u.noteAbstract(x.Pos(), "address of a field taken (&"+exprString(sel)+"): modelled as an opaque pointer")
+		if _, isPtr := isPointer(base.Ty); isPtr && base.So == "Int" {
+			// &p.f = faddr(p, id of f): non-nil and injective in (object, field), nothing else
+			if u.d.add("f:faddr", "(declare-fun faddr (Int Int) Int)") {
+				u.d.add("f:faddr_obj", "(declare-fun faddr_obj (Int) Int)")
+				u.d.add("f:faddr_fld", "(declare-fun faddr_fld (Int) Int)")
+				u.d.axiom("faddr.inj", "(forall ((o Int) (k Int)) (! (and (= (faddr_obj (faddr o k)) o) (= (faddr_fld (faddr o k)) k) (> (faddr o k) 0)) :pattern ((faddr o k))))")
+			}
+			key := u.sortOf(derefType(base.Ty)) + "." + sel.Sel.Name
+			hs := fnv.New32a()
+			hs.Write([]byte(key))
+			return Val{T: app("faddr", base.T, strconv.Itoa(int(hs.Sum32()))), Ty: rt, So: "Int"}
+		}
 		p := u.fresh("fieldptr", "Int")
 		st.assume(app(">", p, "0"))
 		return Val{T: p, Ty: rt, So: "Int"}
@@ -708,6 +724,10 @@ func (u *Unit) deref(st *State, p Val, pos token.Pos) Val {
 		var fs []string
 		for i := 0; i < s.NumFields(); i++ {
 			f := s.Field(i)
+			if f.Name() == "_" {
+				fs = append(fs, u.zero(f.Type()).T)
+				continue
+			}
 			h := u.heapGet(st, u.heapKeyField(so, f.Name()), "(Array Int "+u.sortOf(f.Type())+")")
 			fs = append(fs, app("select", h, p.T))
 		}
@@ -726,6 +746,9 @@ func (u *Unit) storeDeref(st *State, p Val, v Val) {
 		so := u.sortOf(et)
 		for i := 0; i < s.NumFields(); i++ {
 			f := s.Field(i)
+			if f.Name() == "_" {
+				continue // blank fields cannot be read: their content is not modelled
+			}
 			key := u.heapKeyField(so, f.Name())
 			hs := "(Array Int " + u.sortOf(f.Type()) + ")"
 			h := u.heapGet(st, key, hs)
@@ -1354,4 +1377,11 @@ func (u *Unit) bitLiteral(t string) {
 		cs = append(cs, b)
 	}
 	u.d.axiom("bitlit."+t, sAnd(cs...))
+}
+
+func derefType(t types.Type) types.Type {
+	if p, ok := t.Underlying().(*types.Pointer); ok {
+		return p.Elem()
+	}
+	return t
 }
